@@ -26,12 +26,58 @@ SCAL = [t for t, s in gen_types.SCALARS]
 INTR = {'_Bool': (0, 1), 'char': (0, 127), 'signed char': (-128, 127), 'unsigned char': (0, 255), 'short': (-32768, 32767), 'unsigned short': (0, 65535),
         'int': (-2 ** 31, 2 ** 31 - 1), 'unsigned': (0, 2 ** 32 - 1), 'long': (-2 ** 63, 2 ** 63 - 1), 'unsigned long': (0, 2 ** 64 - 1),
         'long long': (-2 ** 63, 2 ** 63 - 1), 'unsigned long long': (0, 2 ** 64 - 1)}
+NARROW = ('_Bool', 'char', 'signed char', 'unsigned char', 'short', 'unsigned short')
 SUPPORT = r'''
 int printf(const char *, ...);
 int vf_nfail;
+long vf_junk = 0x5a5a5a5a5a5a0000;   /* callees build narrow return values on top of this, so the unused bits of the return register are not clean */
 void vf_fail(int fn, int arg, int leaf) { ++vf_nfail; printf("MISMATCH fn=%d arg=%d leaf=%d\n", fn, arg, leaf); }
 void vf_done(void) { printf("DONE fails=%d\n", vf_nfail); }
 int vf_atoi(const char *s) { int n = 0; while (*s >= '0' && *s <= '9') n = n * 10 + (*s++ - '0'); return n; }
+/* narrow return values as the psABI allows a callee to leave them: only the low 8 or 16 bits are meaningful */
+__asm__(".text\n.globl vf_true\nvf_true:\n\tmovl $0x5a5a5a01, %eax\n\tret\n.globl vf_false\nvf_false:\n\tmovl $0x5a5a5a00, %eax\n\tret\n"
+	".globl vf_sc\nvf_sc:\n\tmovl $0x5a5a5afd, %eax\n\tret\n.globl vf_uc\nvf_uc:\n\tmovl $0x5a5a5ac8, %eax\n\tret\n"
+	".globl vf_sh\nvf_sh:\n\tmovl $0x5a5afed4, %eax\n\tret\n.globl vf_us\nvf_us:\n\tmovl $0x5a5aea60, %eax\n\tret\n");
+'''
+DIRTY = r'''
+_Bool vf_true(void), vf_false(void); signed char vf_sc(void); unsigned char vf_uc(void); short vf_sh(void); unsigned short vf_us(void);
+static void call_dirty(void)
+{
+	int t, n = 0; _Bool b; long l; unsigned long ul;
+	if (vf_true()) ; else vf_fail(-1, 0, 0);
+	if (vf_false()) vf_fail(-1, 0, 1);
+	if (!vf_true()) vf_fail(-1, 0, 2);
+	if (!vf_false()) ; else vf_fail(-1, 0, 3);
+	t = vf_false() ? 10 : 20; if (t != 20) vf_fail(-1, 0, 4);
+	t = vf_true() ? 10 : 20; if (t != 10) vf_fail(-1, 0, 5);
+	while (vf_false()) { vf_fail(-1, 0, 6); break; }
+	do { if (++n > 1) { vf_fail(-1, 0, 7); break; } } while (vf_false());
+	for (n = 0; vf_false(); ++n) { vf_fail(-1, 0, 8); break; }
+	if ((vf_true() && 1) != 1) vf_fail(-1, 0, 9);
+	if ((vf_false() || 0) != 0) vf_fail(-1, 0, 10);
+	if ((1 && vf_false()) != 0) vf_fail(-1, 0, 11);
+	if ((0 || vf_true()) != 1) vf_fail(-1, 0, 12);
+	b = vf_false(); if (b) vf_fail(-1, 0, 13);
+	t = vf_false(); if (t != 0) vf_fail(-1, 0, 14);
+	t = vf_true(); if (t != 1) vf_fail(-1, 0, 15);
+	t = vf_true() + vf_true(); if (t != 2) vf_fail(-1, 0, 16);
+	if (vf_true() != 1) vf_fail(-1, 0, 17);
+	if (vf_sc() != -3) vf_fail(-1, 1, 0);
+	if (vf_uc() != 200) vf_fail(-1, 1, 1);
+	if (vf_sh() != -300) vf_fail(-1, 1, 2);
+	if (vf_us() != 60000) vf_fail(-1, 1, 3);
+	l = vf_sc(); if (l != -3) vf_fail(-1, 1, 4);
+	ul = vf_us(); if (ul != 60000) vf_fail(-1, 1, 5);
+	l = vf_sh(); if (l != -300) vf_fail(-1, 1, 6);
+	ul = vf_uc(); if (ul != 200) vf_fail(-1, 1, 7);
+	switch (vf_uc()) { case 200: break; default: vf_fail(-1, 1, 8); }
+	switch (vf_sc()) { case -3: break; default: vf_fail(-1, 1, 9); }
+	if (vf_sc() > 0) vf_fail(-1, 1, 10);
+	if (vf_us() < 0x8000) vf_fail(-1, 1, 11);
+	t = vf_sh() >> 2; if (t != -75) vf_fail(-1, 1, 12);
+	if ((double)vf_sc() != -3.0) vf_fail(-1, 1, 13);
+	if (vf_true() ? 0 : 1) vf_fail(-1, 0, 18);
+}
 '''
 
 
@@ -197,7 +243,13 @@ def callee_text(s):
         if s.ret in s.aggs:
             out.append('\tvf_zero(&r, sizeof r);')
         for acc, ty, c in s.retvals:
-            out.append('\t%s = %s;' % (acc.replace('V', 'r', 1), c))
+            if s.ret == '_Bool':
+                # computed, so that only the low byte of the return register is written (the ABI leaves the rest unspecified)
+                out.append('\tr = (%s) ? vf_junk > 0 : vf_junk < 0;' % c)
+            elif s.ret in NARROW:
+                out.append('\tr = (%s)(vf_junk | (unsigned long)((%s) & %s));' % (s.ret, c, '0xff' if 'char' in s.ret else '0xffff'))
+            else:
+                out.append('\t%s = %s;' % (acc.replace('V', 'r', 1), c))
         out.append('\treturn r;')
     out.append('}')
     return '\n'.join(out)
@@ -219,6 +271,16 @@ def caller_text(s):
         out.append('\t%s = %s;' % (decl_of(s.ret, 'r'), call))
         for j, (acc, ty, c) in enumerate(s.retvals):
             out.append('\tif (%s != %s) vf_fail(%d, -1, %d);' % (acc.replace('V', 'r', 1), c, s.idx, j))
+        if s.ret in INTR and len(s.retvals) == 1:
+            # the call used directly as an operand: a narrow result has to be extended by the caller, a _Bool tested by its low byte only
+            c = s.retvals[0][2]
+            out.append('\tif (%s != %s) vf_fail(%d, -2, 0);' % (call, c, s.idx))
+            if s.ret == '_Bool':
+                out.append('\tif (%s) { if (!(%s)) vf_fail(%d, -3, 0); } else if (%s) vf_fail(%d, -3, 1);' % (call, c, s.idx, c, s.idx))
+                out.append('\t{ int t = %s ? 10 : 20; if (t != ((%s) ? 10 : 20)) vf_fail(%d, -4, 0); }' % (call, c, s.idx))
+                out.append('\tif ((!%s) != !(%s)) vf_fail(%d, -5, 0);' % (call, c, s.idx))
+                out.append('\t{ int n = 0; while (%s) { if (++n > 1) break; } if (n != ((%s) ? 2 : 0)) vf_fail(%d, -6, 0); }' % (call, c, s.idx))
+                out.append('\tif ((%s && 1) != ((%s) && 1) || (%s || 0) != ((%s) || 0)) vf_fail(%d, -7, 0);' % (call, c, call, c, s.idx))
     out.append('}')
     return '\n'.join(out)
 
@@ -229,11 +291,11 @@ def unit(r, nsig):
         aggs.append(a)
     sigs = [gen_sig(r, i, aggs) for i in range(nsig)]
     header = '\n'.join(a.definition() for a in aggs) + '\n'
-    header += 'void vf_fail(int, int, int); void vf_done(void); int vf_atoi(const char *);\nstatic void vf_zero(void *p, unsigned long n) { unsigned char *c = p; while (n--) *c++ = 0; }\n'
+    header += 'void vf_fail(int, int, int); void vf_done(void); int vf_atoi(const char *); extern long vf_junk;\nstatic void vf_zero(void *p, unsigned long n) { unsigned char *c = p; while (n--) *c++ = 0; }\n'
     header += '\n'.join(proto(s) + ';' for s in sigs) + '\n'
     callee = header + '\n'.join(callee_text(s) for s in sigs) + '\n'
-    caller = header + '\n'.join(caller_text(s) for s in sigs) + '\n'
-    caller += 'int main(int argc, char **argv)\n{\n\tint only = argc > 1 ? vf_atoi(argv[1]) : -1;\n'
+    caller = header + '\n'.join(caller_text(s) for s in sigs) + '\n' + DIRTY
+    caller += 'int main(int argc, char **argv)\n{\n\tint only = argc > 1 ? vf_atoi(argv[1]) : -1;\n\tif (only < 0 || only == 1000000) call_dirty();\n'
     for s in sigs:
         caller += '\tif (only < 0 || only == %d) call%d();\n' % (s.idx, s.idx)
     caller += '\tvf_done();\n\treturn 0;\n}\n'
@@ -540,6 +602,11 @@ def _batch(args):
                 recs.append({'kind': 'call', 'dir': direction, 'ok': True, 'sig': s.idx, 'nparam': len(s.params), 'variadic': bool(s.isvar), 'aggs': sum(1 for t in s.params + s.variadic + [s.ret] if t in s.aggs)})
             continue
         # run every signature on its own to attribute failures and crashes
+        r1 = common.run([exe2, '1000000'], timeout=20, env=env, stack=64 << 20)
+        if not (r1.status == 0 and b'DONE fails=0' in r1.out):
+            recs.append({'kind': 'call', 'dir': direction, 'ok': False, 'sig': -1, 'nparam': 0, 'variadic': False, 'aggs': 0, 'files': files, 'types': '',
+                         'proto': 'narrow return values with unspecified upper register bits (call_dirty)',
+                         'detail': 'status=%s signal=%s %s %s' % (r1.status, r1.signal, r1.out[-200:].decode('latin-1'), r1.err[:300].decode('latin-1'))})
         for s in sigs:
             if s.idx in refbad:
                 recs.append({'kind': 'refskip'})
